@@ -443,7 +443,7 @@ def guided(seed, n_ops, profile, welcome_error=None, finish_run=False):
                     if ph3 == "pake":
                         from spake2 import SPAKE2_Symmetric
                         kind = rng.choice(["stranger", "stranger", "empty", "nonjson", "list", "int", "nonhex", "short",
-                                           "zero33", "notingroup", "reflect"])
+                                           "zero33", "notingroup", "offcurve", "random32", "reflect"])
                         if kind == "stranger":
                             el = SPAKE2_Symmetric(b"9-some-stranger", idSymmetric=b"x").start()
                             body3 = dict_to_bytes({"pake_v1": el.hex()})
@@ -454,7 +454,9 @@ def guided(seed, n_ops, profile, welcome_error=None, finish_run=False):
                             body3 = {"empty": b"{}", "nonjson": b"\xff\xfe", "list": b"[]", "int": b'{"pake_v1": 5}',
                                      "nonhex": b'{"pake_v1": "zz"}', "short": b'{"pake_v1": "00"}',
                                      "zero33": dict_to_bytes({"pake_v1": "00" * 33}),
-                                     "notingroup": dict_to_bytes({"pake_v1": "53" + "ff" * 32})}[kind]
+                                     "notingroup": dict_to_bytes({"pake_v1": "53" + "ff" * 32}),
+                                     "offcurve": dict_to_bytes({"pake_v1": "53" + "02" + "00" * 31}),
+                                     "random32": dict_to_bytes({"pake_v1": "53" + bytes(rng.randrange(256) for _ in range(32)).hex()})}[kind]
                     else:
                         body3 = bytes(rng.randrange(256) for _ in range(rng.choice([0, 24, 40, 60])))
                     choices += [["inject", 0, "7h1rd51de", ph3, body3.hex()]] * (3 if profile == "third" else 1)
